@@ -21,6 +21,7 @@
 //!          C04_ONLY=x2|corpus|blobs restricts the sources and marks the run non-exhaustive.
 
 mod domain;
+mod names;
 mod packed;
 mod tde;
 mod vser;
@@ -927,6 +928,14 @@ fn body(run: &Run, replay: Option<&Value>) {
             }
             return;
         }
+        if case["source"].as_str() == Some("name_family") {
+            let mut l = Local::default();
+            names::replay(&ctx, &reg, case, &mut l);
+            for (k, v) in &l.counters {
+                println!("  {k} = {v}");
+            }
+            return;
+        }
         let ty = case["type"].as_str().unwrap_or("");
         let Some(ops) = reg.iter().find(|o| o.full() == ty) else {
             println!("replay: unknown type {ty}");
@@ -1153,6 +1162,13 @@ fn body(run: &Run, replay: Option<&Value>) {
         total.lock().unwrap().merge(l);
     });
     run.extra("test_data_blobs_without_a_name_matched_readable_type", json!(*unmatched.lock().unwrap()));
+
+    // ---- source 4: name table, (platform, encoding) × boundary strings × forms -------------------
+    if want("names") {
+        let mut l = Local::default();
+        names::run_family(&ctx, &reg, &mut l);
+        total.lock().unwrap().merge(l);
+    }
 
     // ---- source 3: hand-written packed point numbers / packed deltas, structured families ----------
     if want("packed") {
